@@ -570,8 +570,19 @@ func c14case(c *runner.Ctx, i int) {
 		st.problem("C14:cache-over-capacity", fmt.Sprintf("the prepared-statement cache holds %d entries, MaxPreparedStmts is %d", cacheLen, cfg.MaxPreparedStmts))
 	}
 	c.Guard("Session.Close", sess.Close)
+	// a starved machine: driver timeouts expire although the nodes answer; a PREPARE that timed out is legitimately
+	// sent again, and the timeouts themselves are nobody's finding
+	starved := false
+	for e := range errs {
+		if strings.Contains(e, "no response received from cassandra within timeout period") || strings.Contains(e, "i/o timeout") || strings.Contains(e, "no response to connection startup within timeout") {
+			starved = true
+		}
+	}
+	if starved {
+		c.Inconclusive("c14-timeouts", "executions ended with driver timeouts although the nodes answer every request")
+	}
 	// PREPARE counts
-	bigCache := cfg.MaxPreparedStmts >= nn*ns+1
+	bigCache := cfg.MaxPreparedStmts >= nn*ns+1 && !starved
 	for k, n := range nodes {
 		n.mu.Lock()
 		for key, cnt := range n.prepN {
@@ -604,6 +615,8 @@ func c14case(c *runner.Ctx, i int) {
 		case anyDrop && strings.Contains(e, "context canceled"):
 			// the PREPARE runs under the connection's context; a dropped connection cancels it
 			c.SetAdd("caller_errors", "scripted-or-connection")
+		case starved && (strings.Contains(e, "timeout") || strings.Contains(e, "no connections") || strings.Contains(e, "no hosts")):
+			c.SetAdd("caller_errors", "driver-timeout")
 		case strings.Contains(e, "scripted PREPARE failure"), strings.Contains(e, "closed"), strings.Contains(e, "EOF"), strings.Contains(e, "no connections"), strings.Contains(e, "no hosts"), strings.Contains(e, "closed pipe"), strings.Contains(e, "no streams available"):
 			c.SetAdd("caller_errors", "scripted-or-connection")
 		default:
